@@ -129,9 +129,11 @@ def monitor_factory(ctx):
                     sigma[p["key"]] = p["values"][r]
                     sigma[p["key"] + ".label"] = plabel(p, r)
                     sigma[p["key"] + ".name"] = p["name"]
-            # labels: their value with its own tokens resolved
+            # labels: their value *as the specification defines it*, with its own
+            # tokens resolved against the values in force for this run
+            spec_labels = spec["env"].get("labels", {})
             for k, v in env.labels.items():
-                sigma[k] = simultaneous(str(v.value), sigma)
+                sigma[k] = simultaneous(str(spec_labels.get(k, v.value)), sigma)
             sigma["WORKSPACE"] = rec.workspace.value
             # workspace references
             dep = orig[stname]["run"].get("depends", [])
